@@ -101,18 +101,25 @@ def run_c07(case):
     kind = case["kind"]
     scratch = None
     bucket = None
+    # `reader`: a SECOND cassette object over the same store, created before anything is saved and kept for the whole
+    # history (ops with via="reader": a reader polling while the writer saves); the in-memory cassette's store is the
+    # object itself, so there the reader is the writer
     if kind == "mem":
         cas = memmod.InMemoryTapeCassette()
+        reader = cas
         names = lambda: list(cas.get_all_recording_ids())
     elif kind == "file":
         scratch = tempfile.mkdtemp(prefix="s3store-c07-%d-" % os.getpid(), dir="/tmp")
         cas = filemod.FileBasedTapeCassette(os.path.join(scratch, "cassette"))
+        reader = filemod.FileBasedTapeCassette(os.path.join(scratch, "cassette"))
         names = lambda: sorted(os.listdir(cas.directory))
     else:
         bucket = "c07-%d" % _n[0]
         cas = s3c.S3TapeCassette(bucket, key_prefix=case.get("prefix", ""), read_only=False)
+        reader = s3c.S3TapeCassette(bucket, key_prefix=case.get("prefix", ""))       # read-only: the default
         store = fake_s3.store(bucket)
         names = lambda: sorted(store.data)
+    view = lambda op: reader if op.get("via") == "reader" else cas
     slots = {}
     fetched = []
     out = []
@@ -145,11 +152,11 @@ def run_c07(case):
                         o["res"] = exn_name(ex, saving=True)
                         o["msg"] = str(ex)[:100]
                 elif k == "get":
-                    rec = cas.get_recording(op["id"])
+                    rec = view(op).get_recording(op["id"])
                     fetched.append(rec)
                     o["rec"] = show(rec)
                 elif k == "get_meta":
-                    m = cas.get_recording_metadata(op["id"])
+                    m = view(op).get_recording_metadata(op["id"])
                     fetched.append(m)
                     o["val"] = from_py(m)
                 elif k == "scribble_fetched":
